@@ -174,6 +174,35 @@ def bindingsFor (rn : NameMaps) (t : Target) (sba : Bool) (ds : List Decl) :
     Except ReportErr (List Binding) :=
   reports rn (backendOf t) (paramsFor t sba) ds
 
+/-- How `compile()` was asked to pick pipelines: every pipeline of the file (`all`), the one with a given name
+    (`named`; `build_pipeline` gets `Some(pipeline)` in both and the exporters see `selected_pipeline = Some _`), or
+    `CompileArgs::no_pipeline_mode()` (`none`: one output, `build_pipeline(.., None, ..)`, the module is exported with
+    `selected_pipeline = None`). -/
+inductive Mode where
+  | all
+  | named
+  | none
+  deriving DecidableEq, Repr
+
+def Mode.selectsPipeline : Mode → Bool
+  | .all => true
+  | .named => true
+  | .none => false
+
+/-- does a back end run its binding analysis (and hand its result on) when no pipeline is selected?
+    Read from the two `generate_module`s on every run (`Gen.hlslBindingsReportedWithoutPipeline`,
+    `Gen.mslBindingsReportedWithoutPipeline`). -/
+def codeReportsWithoutPipeline : Backend → Bool
+  | .hlsl => hlslBindingsReportedWithoutPipeline
+  | .msl => mslBindingsReportedWithoutPipeline
+
+/-- The reflected bindings of one output of `compile()` in a mode.  `always b = false` models an exporter that builds the
+    reflection only for a selected pipeline and otherwise returns `PipelineDescription::default()` (no analysis, hence no
+    error either): the model follows whatever the extraction found, the theorems below need `always = fun _ => true`. -/
+def bindingsInMode (always : Backend → Bool) (rn : NameMaps) (t : Target) (sba : Bool) (m : Mode) (ds : List Decl) :
+    Except ReportErr (List Binding) :=
+  if m.selectsPipeline || always (backendOf t) then bindingsFor rn t sba ds else .ok []
+
 /-- the declared name is treated alike by both target languages: reserved in neither or in both (a cbuffer block
     is never renamed by HLSL, so for it: not reserved in Metal) -/
 def reservedAlike (d : Decl) : Bool :=
@@ -254,5 +283,10 @@ def stageReports (rnFn : String → String) (t : Target) (stages : List StageDef
     match backendOf t with
     | .hlsl => { s with entry := rnFn s.entry }
     | .msl => { s with entry := mslEntryName s.stage }
+
+/-- the stage reports of one output: the selected pipeline's stages, none in no-pipeline mode (`build_pipeline` fills
+    `stages` only under `if let Some(pipeline) = pipeline` in both arms) -/
+def stageReportsInMode (rnFn : String → String) (t : Target) (m : Mode) (stages : List StageDef) : List StageDef :=
+  if m.selectsPipeline then stageReports rnFn t stages else []
 
 end RsslVerif.Model.Targets
